@@ -71,12 +71,48 @@ func main() {
 				}
 				return "\x00" + p.Path() // not importable in this file
 			}
-			ast.Inspect(f, func(node ast.Node) bool {
-				blk, ok := node.(*ast.BlockStmt)
-				if !ok {
-					return true
+			hasWait := map[*ast.FuncDecl]bool{}
+			for _, d := range f.Decls {
+				fd, ok := d.(*ast.FuncDecl)
+				if !ok || fd.Body == nil {
+					continue
 				}
-				for si, stmt := range blk.List {
+				ast.Inspect(fd.Body, func(x ast.Node) bool {
+					if isWaitCall(pkg.TypesInfo, x) != nil {
+						hasWait[fd] = true
+					}
+					return true
+				})
+			}
+			var curFn *ast.FuncDecl
+			done := map[ast.Stmt]bool{}
+			siteOf := func(p token.Pos) string {
+				pos := pkg.Fset.Position(p)
+				return fmt.Sprintf("%s:%d", shortFile(fname), pos.Line)
+			}
+			processList := func(list []ast.Stmt) {
+				for si, stmt := range list {
+					// fork-join seam: go func(..){..}(..) inside a function that also waits on a WaitGroup
+					if gs, ok := stmt.(*ast.GoStmt); ok && curFn != nil && hasWait[curFn] {
+						if fl, ok := gs.Call.Fun.(*ast.FuncLit); ok {
+							id := siteOf(gs.Pos())
+							list[si] = rewriteGo(gs, fl, id, n)
+							n++
+							sites = append(sites, site{ID: id, File: fname, Line: pkg.Fset.Position(gs.Pos()).Line, Key: "go"})
+							continue
+						}
+					}
+					if es, ok := stmt.(*ast.ExprStmt); ok && !done[es] {
+						if isWaitCall(pkg.TypesInfo, es.X) != nil {
+							done[es] = true
+							id := siteOf(es.Pos())
+							join := &ast.ExprStmt{X: &ast.CallExpr{Fun: &ast.SelectorExpr{X: ast.NewIdent("verifvrt"), Sel: ast.NewIdent("Join")}, Args: []ast.Expr{&ast.BasicLit{Kind: token.STRING, Value: fmt.Sprintf("%q", id)}}}}
+							list[si] = &ast.BlockStmt{List: []ast.Stmt{join, es}}
+							n++
+							sites = append(sites, site{ID: id, File: fname, Line: pkg.Fset.Position(es.Pos()).Line, Key: "join"})
+							continue
+						}
+					}
 					var lbl *ast.LabeledStmt
 					rs, ok := stmt.(*ast.RangeStmt)
 					if !ok {
@@ -97,8 +133,7 @@ func main() {
 					if !ok {
 						continue
 					}
-					pos := pkg.Fset.Position(rs.Pos())
-					id := fmt.Sprintf("%s:%d", shortFile(fname), pos.Line)
+					id := siteOf(rs.Pos())
 					keyStr := types.TypeString(mt.Key(), qual)
 					if rs.Tok != token.DEFINE && (rs.Key != nil || rs.Value != nil) || strings.Contains(keyStr, "\x00") {
 						uncontrolled = append(uncontrolled, id+" ("+keyStr+")")
@@ -110,20 +145,47 @@ func main() {
 					}
 					newStmts := rewriteRange(rs, keyStr, id, n)
 					n++
-					sites = append(sites, site{ID: id, File: fname, Line: pos.Line, Key: keyStr})
+					sites = append(sites, site{ID: id, File: fname, Line: pkg.Fset.Position(rs.Pos()).Line, Key: keyStr})
 					if lbl != nil {
 						// keep the label on the new for statement
 						lbl.Stmt = newStmts[len(newStmts)-1]
 						newStmts[len(newStmts)-1] = lbl
 					}
-					blk.List[si] = &ast.BlockStmt{List: newStmts}
-					if lbl != nil {
-						// a labeled statement cannot sit inside a new block if it is the target of
-						// continue/break from inside: it still is (the label moves with the for)
-					}
+					list[si] = &ast.BlockStmt{List: newStmts}
 				}
-				return true
-			})
+			}
+			usesTime := false
+			for _, d := range f.Decls {
+				fd, _ := d.(*ast.FuncDecl)
+				curFn = fd
+				ast.Inspect(d, func(node ast.Node) bool {
+					switch x := node.(type) {
+					case *ast.BlockStmt:
+						processList(x.List)
+					case *ast.CaseClause:
+						processList(x.Body)
+					case *ast.CommClause:
+						processList(x.Body)
+					case *ast.CallExpr:
+						// clock seam: time.Now() -> verifvrt.Now()
+						if sel, ok := x.Fun.(*ast.SelectorExpr); ok && sel.Sel.Name == "Now" && len(x.Args) == 0 {
+							if id, ok := sel.X.(*ast.Ident); ok {
+								if pn, ok := pkg.TypesInfo.Uses[id].(*types.PkgName); ok && pn.Imported().Path() == "time" {
+									id.Name = "verifvrt"
+									usesTime = true
+									n++
+									sites = append(sites, site{ID: siteOf(x.Pos()), File: fname, Line: pkg.Fset.Position(x.Pos()).Line, Key: "clock"})
+								}
+							}
+						}
+					}
+					return true
+				})
+			}
+			if usesTime {
+				// keep the "time" import used
+				f.Decls = append(f.Decls, &ast.GenDecl{Tok: token.VAR, Specs: []ast.Spec{&ast.ValueSpec{Names: []*ast.Ident{ast.NewIdent("_")}, Values: []ast.Expr{&ast.SelectorExpr{X: ast.NewIdent(timeName(f)), Sel: ast.NewIdent("Nanosecond")}}}}})
+			}
 			if n == 0 {
 				continue
 			}
@@ -227,4 +289,55 @@ func rewriteRange(rs *ast.RangeStmt, keyType, id string, n int) []ast.Stmt {
 	call := &ast.CallExpr{Fun: &ast.SelectorExpr{X: ast.NewIdent("verifvrt"), Sel: ast.NewIdent("MapKeys")}, Args: []ast.Expr{mv, &ast.BasicLit{Kind: token.STRING, Value: fmt.Sprintf("%q", id)}}}
 	loop := &ast.RangeStmt{Key: ast.NewIdent("_"), Value: kv, Tok: token.DEFINE, X: call, Body: &ast.BlockStmt{List: body}}
 	return []ast.Stmt{assignM, loop}
+}
+
+func timeName(f *ast.File) string {
+	for _, im := range f.Imports {
+		if strings.Trim(im.Path.Value, "\"") == "time" && im.Name != nil {
+			return im.Name.Name
+		}
+	}
+	return "time"
+}
+
+// isWaitCall reports X for a call X.Wait() on a sync.WaitGroup.
+func isWaitCall(info *types.Info, n ast.Node) ast.Expr {
+	call, ok := n.(*ast.CallExpr)
+	if !ok || len(call.Args) != 0 {
+		return nil
+	}
+	sel, ok := call.Fun.(*ast.SelectorExpr)
+	if !ok || sel.Sel.Name != "Wait" {
+		return nil
+	}
+	tv, ok := info.Types[sel.X]
+	if !ok {
+		return nil
+	}
+	t := tv.Type
+	if p, ok := t.(*types.Pointer); ok {
+		t = p.Elem()
+	}
+	if nt, ok := t.(*types.Named); ok && nt.Obj().Pkg() != nil && nt.Obj().Pkg().Path() == "sync" && nt.Obj().Name() == "WaitGroup" {
+		return sel.X
+	}
+	return nil
+}
+
+// rewriteGo turns `go func(p..){body}(a..)` into
+//     { __a0 := a0; ...; __f := func(p..){body}; verifvrt.Go(site, func(){ __f(__a0, ...) }) }
+// (arguments are still evaluated at the go statement).
+func rewriteGo(gs *ast.GoStmt, fl *ast.FuncLit, id string, n int) ast.Stmt {
+	var stmts []ast.Stmt
+	var args []ast.Expr
+	for i, a := range gs.Call.Args {
+		v := ast.NewIdent(fmt.Sprintf("__va%d_%d", n, i))
+		stmts = append(stmts, &ast.AssignStmt{Lhs: []ast.Expr{v}, Tok: token.DEFINE, Rhs: []ast.Expr{a}})
+		args = append(args, v)
+	}
+	fv := ast.NewIdent(fmt.Sprintf("__vf%d", n))
+	stmts = append(stmts, &ast.AssignStmt{Lhs: []ast.Expr{fv}, Tok: token.DEFINE, Rhs: []ast.Expr{fl}})
+	thunk := &ast.FuncLit{Type: &ast.FuncType{Params: &ast.FieldList{}}, Body: &ast.BlockStmt{List: []ast.Stmt{&ast.ExprStmt{X: &ast.CallExpr{Fun: fv, Args: args, Ellipsis: gs.Call.Ellipsis}}}}}
+	stmts = append(stmts, &ast.ExprStmt{X: &ast.CallExpr{Fun: &ast.SelectorExpr{X: ast.NewIdent("verifvrt"), Sel: ast.NewIdent("Go")}, Args: []ast.Expr{&ast.BasicLit{Kind: token.STRING, Value: fmt.Sprintf("%q", id)}, thunk}}})
+	return &ast.BlockStmt{List: stmts}
 }
